@@ -62,6 +62,8 @@ def to_dimacs_file(formula, fileorname=None,
     if export_varnames:
         for varid, label in enumerate(formula.all_variable_labels(), start=1):
             label = " ".join(str(label).splitlines())
+            # ascii compatible, as the header
+            label = label.encode('ascii', errors='replace').decode('ascii')
             output.write("c varname {0} {1}\n".format(varid, label))
         output.write("c\n")
 
